@@ -780,7 +780,8 @@ def expand(node: ir.Node, op, state: OptimizerState) -> ReturnValue:
     return None
 
 
-@register("ConcatFromSequence")
+# Emits Unsqueeze with an axes input (opset 13+).
+@register("ConcatFromSequence", version=(13, None))
 def concat_from_sequence(node: ir.Node, op, state: OptimizerState) -> ReturnValue:
     input = node.inputs[0]
     inputs = state.get_sym_value(input)
@@ -811,7 +812,8 @@ def concat_from_sequence(node: ir.Node, op, state: OptimizerState) -> ReturnValu
     return None
 
 
-@register("SplitToSequence")
+# Emits Split with a split input (opset 13+) or the num_outputs attribute (opset 18+), Squeeze with an axes input.
+@register("SplitToSequence", version=(18, None))
 def split_to_sequence(node: ir.Node, op, state: OptimizerState) -> ReturnValue:
     """Rewriting pattern.
 
